@@ -29,6 +29,7 @@ import (
 	"github.com/cloudwego/eino/compose"
 	"github.com/cloudwego/eino/internal/vkit"
 	rapid "github.com/cloudwego/eino/internal/vrapid"
+	"github.com/cloudwego/eino/schema"
 )
 
 type SInner struct {
@@ -100,9 +101,13 @@ func mergeValue(dst, src reflect.Value) {
 				om, ok1 := old.Interface().(map[string]any)
 				nm, ok2 := it.Value().Interface().(map[string]any)
 				if ok1 && ok2 {
-					tmp := reflect.ValueOf(&om).Elem()
+					cp := make(map[string]any, len(om))
+					for k, v := range om {
+						cp[k] = v
+					}
+					tmp := reflect.ValueOf(&cp).Elem()
 					mergeValue(tmp, reflect.ValueOf(nm))
-					dst.SetMapIndex(it.Key(), reflect.ValueOf(om))
+					dst.SetMapIndex(it.Key(), reflect.ValueOf(cp))
 					continue
 				}
 			}
@@ -121,15 +126,20 @@ func mergeValue(dst, src reflect.Value) {
 		if src.IsNil() {
 			return
 		}
-		if !dst.IsNil() {
-			om, ok1 := dst.Interface().(map[string]any)
-			nm, ok2 := src.Interface().(map[string]any)
-			if ok1 && ok2 {
-				tmp := reflect.ValueOf(&om).Elem()
-				mergeValue(tmp, reflect.ValueOf(nm))
-				dst.Set(reflect.ValueOf(om))
-				return
+		// never write into a map that belongs to a chunk (it may alias the predecessor's output)
+		if nm, ok := src.Interface().(map[string]any); ok {
+			merged := map[string]any{}
+			if !dst.IsNil() {
+				if om, ok := dst.Interface().(map[string]any); ok {
+					for k, v := range om {
+						merged[k] = v
+					}
+				}
 			}
+			tmp := reflect.ValueOf(&merged).Elem()
+			mergeValue(tmp, reflect.ValueOf(nm))
+			dst.Set(reflect.ValueOf(merged))
+			return
 		}
 		dst.Set(src)
 	default:
@@ -441,7 +451,15 @@ func eq15(a, b reflect.Value) bool {
 	switch a.Kind() {
 	case reflect.Ptr:
 		if a.IsNil() || b.IsNil() {
-			return a.IsNil() == b.IsNil()
+			if a.IsNil() && b.IsNil() {
+				return true
+			}
+			// a nil pointer and a pointer to the zero value both mean "nothing mapped"
+			x := a
+			if x.IsNil() {
+				x = b
+			}
+			return eq15(x.Elem(), reflect.Zero(x.Type().Elem()))
 		}
 		return eq15(a.Elem(), b.Elem())
 	case reflect.Struct:
@@ -556,7 +574,23 @@ func build15[S, D any](c CaseC15, order []int, srcVal S) *wf15 {
 	}
 	out.stream = func(ctx context.Context) (any, error) {
 		captured = nil
-		sr, err := r.Stream(ctx, srcVal)
+		var sr *schema.StreamReader[string]
+		var err error
+		if mv, ok := any(srcVal).(map[string]any); ok && len(mv) > 1 {
+			// a map source arrives in several chunks, one key each: every chunk lacks most mapped keys
+			keys := make([]string, 0, len(mv))
+			for k := range mv {
+				keys = append(keys, k)
+			}
+			sort.Strings(keys)
+			var chunks []S
+			for _, k := range keys {
+				chunks = append(chunks, any(map[string]any{k: mv[k]}).(S))
+			}
+			sr, err = r.Transform(ctx, schema.StreamReaderFromArray(chunks))
+		} else {
+			sr, err = r.Stream(ctx, srcVal)
+		}
 		if err != nil {
 			return nil, err
 		}
